@@ -31,7 +31,7 @@ impl Property for C16 {
         "C16"
     }
     fn rule(&self) -> String {
-        "Cases: one operand of any zoo type/length/provenance (spare capacity, heap-mode Bv, produced-by-operation included); values biased to run-length patterns. Enumerated: all values n<=12 (quick)/18 (thorough) on all 19 types; for every n<=min(C,260) and every run length r<=n at either end, both polarities, with an interrupting opposite bit at {none, r, r+1, next word boundary, n-1}. Oracle: counting on the bit list for leading_zeros/leading_ones/trailing_zeros/trailing_ones/significant_bits/is_zero, plus the stated identities (lz+significant_bits=len, is_zero iff significant_bits=0, counts<=len, uniform => len, empty => 0). Non-trivial: some run r with 0<r<n whose boundary is within 1 of a storage-word boundary or which spans >= 2 words. Distinct by hash of the case.".into()
+        "Cases: one operand of any zoo type/length/provenance (spare capacity, heap-mode Bv, produced-by-operation included); values biased to run-length patterns. Enumerated: all values n<=12 (quick)/18 (thorough) on all 20 types; for every n<=min(C,260) and every run length r<=n at either end, both polarities, with an interrupting opposite bit at {none, r, r+1, next word boundary, n-1}. Oracle: counting on the bit list for leading_zeros/leading_ones/trailing_zeros/trailing_ones/significant_bits/is_zero, plus the stated identities (lz+significant_bits=len, is_zero iff significant_bits=0, counts<=len, uniform => len, empty => 0). Non-trivial: some run r with 0<r<n whose boundary is within 1 of a storage-word boundary or which spans >= 2 words. Distinct by hash of the case.".into()
     }
     fn random_cases(&self, tier: Tier) -> u64 {
         tier.pick(300000, 9600000)
@@ -41,8 +41,8 @@ impl Property for C16 {
     }
     fn exhaustive_subspaces(&self, tier: Tier) -> Vec<String> {
         vec![
-            format!("all values for n<={} (clipped to capacity) x 19 types", tier.pick(12, 18)),
-            "every (n<=min(capacity,260), run length r<=n, end in {top,bottom}, polarity, interrupting bit position in {none,r,r+1,next word boundary,n-1}) x 19 types".into(),
+            format!("all values for n<={} (clipped to capacity) x 20 types", tier.pick(12, 18)),
+            "every (n<=min(capacity,260), run length r<=n, end in {top,bottom}, polarity, interrupting bit position in {none,r,r+1,next word boundary,n-1}) x 20 types".into(),
         ]
     }
     fn enumerate(&self, tier: Tier, sh: &mut Shard, f: &mut dyn FnMut(C16Case) -> bool) {
